@@ -34,9 +34,9 @@ type c19World struct {
 	batchSigs [][]byte
 	// a second batch with entries the library rejects before the pairing (identity key, signatures of
 	// the wrong length): ONE list of keys and ONE list of signatures shared by all goroutines
-	b2Pks  []crypto.PublicKey
-	b2Sigs []crypto.Signature
-	b2Want []bool
+	b2Pks     []crypto.PublicKey
+	b2Sigs    []crypto.Signature
+	b2Want    []bool
 	batchWant []bool
 	pkBytes   [][]byte // encodings of pks, taken before the storm objects were created
 	ecSks     [2]crypto.PrivateKey
@@ -371,6 +371,7 @@ func c19Core(run *mon.Run) {
 		}
 	}
 	c19VerifyStorm(run)
+	c19FirstUseStorm(run)
 	for _, op := range c19Ops {
 		run.Shape("op|" + op)
 		run.Require(run.Counter("calls."+op) >= int64(min(200, calls/20)) || run.ViolationCount() > 0, "fewer than 200 concurrent calls of "+op)
@@ -474,6 +475,135 @@ func c19VerifyStorm(run *mon.Run) {
 	run.Shape("verify-storm")
 }
 
+// c19FirstUseStorm: many rounds, each with a FRESH public key object (decoded from bytes, aggregated, or
+// in Jacobian coordinates as RemoveBLSPublicKeys returns it) that no call has touched yet. G goroutines
+// leave a spin barrier together and make their first read-only call on that object at the same moment.
+// Anything a read-only operation fills in or normalises lazily (an encoding cache, an affine conversion
+// inside the C layer) happens exactly once per object, so only a storm of first uses can see it: as a
+// data race (race build), as a wrong verdict, or as a key that no longer encodes to the bytes it came from.
+func c19FirstUseStorm(run *mon.Run) {
+	rounds := run.Pick(500, 8000)
+	if sc := os.Getenv("VERIF_C19_SCALE"); sc != "" {
+		var f float64
+		fmt.Sscan(sc, &f)
+		rounds = int(float64(rounds) * f)
+	}
+	r := run.Rand("first-use")
+	xof := crypto.NewExpandMsgXOFKMAC128("c19-first-use")
+	msg := mon.RandBytes(r, 33)
+	// a pool of source keys with everything the oracle needs, computed sequentially on OTHER objects
+	type src struct {
+		enc       []byte
+		ref       crypto.PublicKey
+		sig, pop  crypto.Signature
+		other     crypto.Signature
+		partner   crypto.PublicKey
+		aggSigTwo crypto.Signature
+	}
+	var pool []src
+	for i := 0; i < 12; i++ {
+		sk := skFromInt(randScalar(r))
+		sk2 := skFromInt(randScalar(r))
+		pk := sk.PublicKey()
+		sig, _ := sk.Sign(msg, xof)
+		sig2, _ := sk2.Sign(msg, xof)
+		pop, _ := crypto.BLSGeneratePOP(sk)
+		agg, _ := crypto.AggregateBLSSignatures([]crypto.Signature{sig, sig2})
+		pool = append(pool, src{enc: pk.Encode(), ref: pk, sig: sig, pop: pop, other: sig2, partner: sk2.PublicKey(), aggSigTwo: agg})
+	}
+	kinds := []string{"decoded", "jacobian", "decoded-compressed", "jacobian-of-aggregate"}
+	var wrong atomic.Int64
+	var firstMsg atomic.Value
+	for round := 0; round < rounds && wrong.Load() == 0; round++ {
+		s := pool[round%len(pool)]
+		kind := kinds[(round/len(pool))%len(kinds)]
+		var pk crypto.PublicKey
+		var err error
+		switch kind {
+		case "decoded":
+			pk, err = crypto.DecodePublicKey(BLS, append([]byte{}, s.enc...))
+		case "decoded-compressed":
+			pk, err = crypto.DecodePublicKeyCompressed(BLS, append([]byte{}, s.enc...))
+		case "jacobian":
+			d, e := crypto.DecodePublicKey(BLS, s.enc)
+			if e != nil {
+				err = e
+				break
+			}
+			pk = jacobianForm(d, r)
+		default:
+			// (pk + partner) - partner, built from fresh objects
+			d, e := crypto.DecodePublicKey(BLS, s.enc)
+			if e != nil {
+				err = e
+				break
+			}
+			a, e := crypto.AggregateBLSPublicKeys([]crypto.PublicKey{d, s.partner})
+			if e != nil {
+				err = e
+				break
+			}
+			pk, err = crypto.RemoveBLSPublicKeys(a, []crypto.PublicKey{s.partner})
+		}
+		if err != nil {
+			run.Inconclusive("first-use storm: cannot build a fresh key: " + err.Error())
+			return
+		}
+		G := []int{2, 4, 8}[round%3]
+		var arrived atomic.Int32
+		var wg sync.WaitGroup
+		for g := 0; g < G; g++ {
+			wg.Add(1)
+			go func(g int) {
+				defer wg.Done()
+				defer run.Protect("c19 first use")
+				arrived.Add(1)
+				for arrived.Load() < int32(G) {
+					// spin: all goroutines leave together
+				}
+				var ok, want bool
+				var err error
+				op := (g + round) % 5
+				switch op {
+				case 0:
+					ok, err = pk.Verify(s.sig, msg, xof)
+					want = true
+				case 1:
+					ok, err = pk.Verify(s.other, msg, xof)
+				case 2:
+					ok, err = crypto.BLSVerifyPOP(pk, s.pop)
+					want = true
+				case 3:
+					ok, err = crypto.SPOCKVerify(pk, s.sig, s.partner, s.other)
+					want = true
+				default:
+					ok, err = crypto.VerifyBLSSignatureOneMessage([]crypto.PublicKey{pk, s.partner}, s.aggSigTwo, msg, xof)
+					want = true
+				}
+				if err != nil || ok != want {
+					wrong.Add(1)
+					firstMsg.CompareAndSwap(nil, fmt.Sprintf("round %d, %s key, %d goroutines making their first call on it together: operation %d returned (%v,%v), alone it returns %v", round, kind, G, op, ok, err, want))
+				}
+			}(g)
+		}
+		wg.Wait()
+		run.Eval(G)
+		run.Count("first-use.calls", G)
+		run.Count("first-use.rounds", 1)
+		// the key object afterwards: same bytes, same point
+		var enc []byte
+		if !run.Guard("Encode-after-first-use", map[string]any{"kind": kind}, func() { enc = pk.Encode() }) && (!bytes.Equal(enc, s.enc) || !pk.Equals(s.ref) || !s.ref.Equals(pk)) {
+			run.Violate("C19:arguments-modified:key-after-first-use", fmt.Sprintf("a %s public key used for the first time by %d goroutines at once encodes to %x afterwards; it was built from %x", kind, G, enc, s.enc), map[string]any{"kind": kind, "goroutines": G, "round": round})
+			return
+		}
+	}
+	if wrong.Load() > 0 {
+		m, _ := firstMsg.Load().(string)
+		run.Violate("C19:result-differs:first-use-storm", m, map[string]any{"wrong_results": wrong.Load()})
+	}
+	run.Shape("first-use-storm")
+}
+
 // C19: race-freedom of read-only / thread-safe operations.
 func C19(run *mon.Run) {
 	run.Rule = "goroutine storms (G in {2,8,32}) picking from KMAC128 ComputeHash on one hasher, BLS Sign/Verify/BLSVerifyPOP/SPOCKVerify/aggregate/batch verification sharing keys and one expand_message hasher, ECDSA Sign/Verify sharing keys with per-goroutine hashers; every result compared with a table computed sequentially; all argument buffers, key encodings and hasher states fingerprinted before and after; run in the default build and under the race detector; shape = (goroutine count, repetition) and (operation)"
@@ -486,6 +616,7 @@ func C19(run *mon.Run) {
 	}
 	run.Require(run.Counter("default.storms") >= 3, "default build ran fewer than 3 storms")
 	run.Require(run.Counter("race.storms") >= 3, "race build ran fewer than 3 storms")
+	run.Require(run.Counter("default.first-use.rounds") >= 100 || run.ViolationCount() > 0, "first-use storm ran fewer than 100 rounds in the default build")
 	run.Sample(map[string]any{"operations": c19Ops, "goroutine_counts": []int{2, 8, 32}})
 }
 
